@@ -1264,7 +1264,9 @@ class C13(Prop):
                 "encoding of a record well-formed in every context, with the labels of the text (C13_built_record_is_insertable), and for "
                 "every accepted packet a successful insert_rr of it into the answer, authority or additional section leaves accepted bytes "
                 "with the view of their parse (C13_built_record_inserts, through C09_insert_effect); the same well-formedness for the records whose data is one name "
-                "(NS, CNAME, PTR through the name-record builder: C13_built_name_record_is_insertable; MX and SOA not yet). PARTIAL: that the grammar accepts exactly the supported texts and passes the right fields to the "
+                "(NS, CNAME, PTR through the name-record builder: C13_built_name_record_is_insertable), for MX, SOA, TXT and DS through their builders "
+                "(C13_built_mx_record_is_insertable, C13_built_soa_record_is_insertable, C13_built_txt_record_is_insertable, "
+                "C13_built_ds_record_is_insertable): all nine record types of the grammar. PARTIAL: that the grammar accepts exactly the supported texts and passes the right fields to the "
                 "builders is decided by the correspondence and the independent encoder oracle, not by a theorem.")
     assumptions = ["input strings are valid UTF-8 (Rust &str); the model works on their bytes",
                    "chomp1-0.3.4 combinators, hex::decode and Ipv6Addr::from_str are reproduced by hand in Model/Text.v (trusted, exercised by the correspondence)"]
